@@ -100,7 +100,7 @@ def run(replay=None):
     ck.coverage["distinct_nontrivial"] = nwrites + len(tiny)
     ck.coverage["rule"] = ("random (offset,length) raw writes into a never-executed 4-page text region (every offset within 16 bytes of a page end, 13-byte writes, "
                            "writes crossing 1-2 page boundaries, empty/aligned writes); whole region compared with a shadow image and /proc/self/maps read after every write; "
-                           "synthetic functions of exact sizes 2..40 at 0/1/5/12/13 bytes before a page end patched through patch.Ptr; extent scan of every function of the binary")
+                           "synthetic functions of exact sizes 2..40 (plain, ENDBR64 and EVEX entries) at 0/1/5/12/13 bytes before a page end patched through patch.Ptr; extent scan of every function of the binary")
     ck.coverage["samples"] = [{k: r[k] for k in ("off", "len", "first_diff", "perms")} for r in rows if r.get("kind") == "write"][:3] + \
         [{k: r[k] for k in r if k != "perms"} for r in tiny[60:62]]
 
